@@ -119,6 +119,17 @@ Theorem C12_system_roundtrip : forall (F : Type) (parse_float : str -> option F)
 Proof. intros F pf prf zero one H1 H2 H3. exact (system_roundtrip F pf prf zero H1 H2 H3 one). Qed.
 Print Assumptions C12_system_roundtrip.
 
+(* ... and a script: its system as above, the requested times (bit-identical, equivalent unit), time step, sampling interval and
+   effective t_max (the given one, else the last requested time in the requested times' own unit - what the writer states),
+   sampling policy, seed, initial-state processing mode and units system *)
+Theorem C12_script_roundtrip : forall (F : Type) (parse_float : str -> option F) (print_float : F -> str) (zero one milli : F),
+  (forall x, parse_float (print_float x) = Some x) -> (forall x, existsb is_space (print_float x) = false) ->
+  (forall x, print_float x <> nil) ->
+  forall (s : script_obj F), wf_script F s ->
+  exists s', read_script F parse_float zero one milli (write_script F print_float zero wr s) = Ok s' /\ script_equiv F zero s s'.
+Proof. intros F pf prf zero one milli H1 H2 H3. exact (script_roundtrip F pf prf zero H1 H2 H3 one milli). Qed.
+Print Assumptions C12_script_roundtrip.
+
 (* what the writers put into the dictionaries reads back: every quantity is written as str(UnitValue) (C18) ... *)
 Theorem C12_quantity_text : forall (F : Type) (parse_float : str -> option F) (print_float : F -> str) (zero : F),
   (forall x, parse_float (print_float x) = Some x) -> (forall x, existsb is_space (print_float x) = false) ->
